@@ -532,4 +532,73 @@ def rule_chunkptr(P):
     return R
 
 
-RULES = [rule_threshold_first, rule_coalesce, rule_serve, rule_singleton_scan, rule_layout, rule_chunkptr]
+LINK_PAIR = {"Next": "Prev", "Prev": "Next", "Up": "Down", "Down": "Up"}
+_SRC_LINES = {}
+
+
+def _src_line(file, line):
+    import os
+    from frontend import SRC
+    if file not in _SRC_LINES:
+        try:
+            _SRC_LINES[file] = open(os.path.join(SRC, file), errors="replace").read().split("\n")
+        except OSError:
+            _SRC_LINES[file] = []
+    L = _SRC_LINES[file]
+    return L[line - 1] if 0 < line <= len(L) else ""
+
+
+def _link_arg(t):
+    t = _nzs(t).replace("this->", "")
+    m = re.fullmatch(r"(?:node_address|INT|long|int|size_t)\((.+)\)", t)
+    return m.group(1) if m else t
+
+
+def rule_link_symmetry(P):
+    """the grid managers keep their holes in doubly linked chains (Next/Prev) and a doubly linked column of index holes (Up/Down).  A function
+    that stores one direction of a link — Next(a) = b — stores the other — Prev(b) = a — as well (guarded by `if (b)` or not); a hole whose back
+    link is stale is unlinked later through the wrong neighbour and the chain then leads into a chunk that has been handed out."""
+    R = RuleResult("storage.link-symmetry", "in the grid memory managers, a function that stores a link Next(a)=b / Up(a)=b with b not the literal 0 also stores the opposite link Prev(b)=a / Down(b)=a (accessor assignment, set<Link>(a,b), or createIndexHoleUp(a,b) for Up)")
+    seen = set()
+    nst = 0
+    for f in sorted(P.fns.values(), key=lambda f: (f["file"], f["line"], f["inst"])):
+        if not f.get("cfg") or not f["file"].startswith("memory_managers/") or (f["file"], f["line"]) in seen:
+            continue
+        g = Graph(f)
+        stores = []
+        for k in g.nodes:
+            if k.kind != "call" or not k.ev["q"].startswith(M):
+                continue
+            nm = k.ev["q"].split("::")[-1]
+            a = k.ev.get("args", [])
+            if nm in ("setNext", "setPrev", "setUp", "setDown") and len(a) == 2:
+                stores.append((nm[3:], _link_arg(a[0]), _link_arg(a[1]), k.line))
+            elif nm == "createIndexHoleUp" and len(a) == 2:
+                stores.append(("Up", _link_arg(a[0]), _link_arg(a[1]), k.line))
+            elif nm in LINK_PAIR and len(a) == 1:
+                m = re.search(r"\b%s\s*\(\s*%s\s*\)\s*=(?!=)\s*([^;]+);" % (nm, re.escape(a[0].strip().replace("this->", ""))), _src_line(f["file"], k.line))
+                if m:
+                    stores.append((nm, _link_arg(a[0]), _link_arg(m.group(1)), k.line))
+        if not stores:
+            continue
+        seen.add((f["file"], f["line"]))
+        R.functions.add(f["inst"])
+        have = {(s[0], s[1], s[2]) for s in stores}
+        for acc, a, b, line in sorted(set(stores), key=lambda s: s[3]):
+            if b in ("0", "0L", "nullptr"):
+                continue
+            nst += 1
+            R.paths += 1
+            iid = "%s: %s(%s)=%s has %s(%s)=%s" % (base_name(f["q"]).replace(M, "")[:50], acc, a, b, LINK_PAIR[acc], b, a)
+            if (LINK_PAIR[acc], b, a) in have:
+                R.ok(iid, where(f, line))
+            else:
+                R.fail(iid, where(f, line), Finding(R.rule, f["file"], base_name(f["q"]), "%s(%s)=%s" % (acc, a, b),
+                       "the link %s(%s) = %s is stored but the opposite link %s(%s) = %s is not stored anywhere in this function: %s keeps a stale %s link, and unlinking it later rewires the wrong neighbour" % (acc, a, b, LINK_PAIR[acc], b, a, b, LINK_PAIR[acc].lower()), line, inst=f["inst"]))
+    if nst < 20:
+        raise AnalysisBroken("storage.link-symmetry: expected at least 20 link stores in the grid managers (array_grid.cc, orig_grid.cc), found %d" % nst)
+    R.require_floor(20, "link stores")
+    return R
+
+
+RULES = [rule_threshold_first, rule_coalesce, rule_serve, rule_singleton_scan, rule_layout, rule_chunkptr, rule_link_symmetry]
